@@ -40,6 +40,7 @@ class SpyControl:
         self.close_delay = 0.0      # ... or for this long (virtual time passes only when nothing else can happen)
         self.wbuf = {}              # id(file) -> [chunks]
         self.op_job = None          # set of ops that first wait for an executor job (exists/is_file/is_dir/stat ...)
+        self.job_first = False      # the job is waited for before the call is counted / an injected failure is raised
 
     def leaked(self):
         """paths of handles aioftp received and that are not closed (a real file
@@ -106,8 +107,10 @@ def make_spy(base, ctl):
 
         @ue
         async def exists(self, path):
+            if ctl.job_first and ctl.op_job and "exists" in ctl.op_job and ctl.armed:
+                await asyncio.get_running_loop().run_in_executor(None, _op_job)
             await ctl.before("exists", (path,), self)
-            if ctl.op_job and "exists" in ctl.op_job and ctl.armed:
+            if not ctl.job_first and ctl.op_job and "exists" in ctl.op_job and ctl.armed:
                 await asyncio.get_running_loop().run_in_executor(None, _op_job)
             r = await super().exists(path)
             await _after(ctl, "exists", self)
@@ -115,8 +118,10 @@ def make_spy(base, ctl):
 
         @ue
         async def is_dir(self, path):
+            if ctl.job_first and ctl.op_job and "is_dir" in ctl.op_job and ctl.armed:
+                await asyncio.get_running_loop().run_in_executor(None, _op_job)
             await ctl.before("is_dir", (path,), self)
-            if ctl.op_job and "is_dir" in ctl.op_job and ctl.armed:
+            if not ctl.job_first and ctl.op_job and "is_dir" in ctl.op_job and ctl.armed:
                 await asyncio.get_running_loop().run_in_executor(None, _op_job)
             r = await super().is_dir(path)
             await _after(ctl, "is_dir", self)
@@ -124,8 +129,10 @@ def make_spy(base, ctl):
 
         @ue
         async def is_file(self, path):
+            if ctl.job_first and ctl.op_job and "is_file" in ctl.op_job and ctl.armed:
+                await asyncio.get_running_loop().run_in_executor(None, _op_job)
             await ctl.before("is_file", (path,), self)
-            if ctl.op_job and "is_file" in ctl.op_job and ctl.armed:
+            if not ctl.job_first and ctl.op_job and "is_file" in ctl.op_job and ctl.armed:
                 await asyncio.get_running_loop().run_in_executor(None, _op_job)
             r = await super().is_file(path)
             await _after(ctl, "is_file", self)
@@ -168,8 +175,10 @@ def make_spy(base, ctl):
 
         @ue
         async def stat(self, path):
+            if ctl.job_first and ctl.op_job and "stat" in ctl.op_job and ctl.armed:
+                await asyncio.get_running_loop().run_in_executor(None, _op_job)
             await ctl.before("stat", (path,), self)
-            if ctl.op_job and "stat" in ctl.op_job and ctl.armed:
+            if not ctl.job_first and ctl.op_job and "stat" in ctl.op_job and ctl.armed:
                 await asyncio.get_running_loop().run_in_executor(None, _op_job)
             r = await super().stat(path)
             await _after(ctl, "stat", self)
